@@ -167,8 +167,7 @@ func (s *sim) event(kind int) {
 			return
 		}
 		c.Log("tick", "r%d", r.id)
-		r.n.Tick()
-		s.process(r)
+		s.tickOf(r)
 	case 1: // deliver
 		s.deliverOne(true)
 	case 2: // propose
@@ -387,6 +386,10 @@ func (s *sim) proposeConf() {
 			return
 		}
 		cc = pb.ConfChange{Type: pb.ConfChangeAddNode, ReplicaID: learners[t.Choose(len(learners))]}
+		// operators promote a learner only once it has caught up
+		if lr := s.rs[cc.ReplicaID-1]; !lr.up || lr.cursor < s.lastConfIdx {
+			return
+		}
 	case 3: // remove
 		all := append(append([]uint64{}, voters...), learners...)
 		if len(all) <= 1 {
@@ -485,9 +488,8 @@ func (s *sim) tail() {
 			break
 		}
 		for _, r := range s.rs {
-			if r.up && (member(r) || round < 20) {
-				r.n.Tick()
-				s.process(r)
+			if r.up && (member(r) || round < 20 || r.removing > 0) {
+				s.tickOf(r)
 			} else if r.up && round >= 20 && s.lastConfIdx > 0 && !member(r) && r.cursor >= s.lastConfIdx {
 				// knows it is out: stopped
 			}
@@ -515,6 +517,59 @@ func (s *sim) tail() {
 		if upVoters*2 <= voters {
 			c.Count("tail_no_majority", 1)
 			return
+		}
+		// same exclusion from the point of view of the replicas that are behind:
+		// the configuration a lagging replica has applied may need votes of
+		// replicas that were removed and destroyed meanwhile
+		for _, r := range s.rs {
+			if member(r) && r.cursor < target {
+				v, u := 0, 0
+				for _, id := range r.confState.Nodes {
+					v++
+					if s.rs[id-1].up {
+						u++
+					}
+				}
+				if u*2 <= v {
+					c.Count("tail_no_majority_in_own_view", 1)
+					return
+				}
+			}
+		}
+		// ground truth for known finding "promoted-learner-unaware": a voter of
+		// the newest configuration still believes it is a learner (or not a
+		// member) and therefore ignores vote requests, and the voters that do
+		// know are no majority
+		aware := 0
+		for _, id := range s.lastConf.Nodes {
+			if x := s.rs[id-1]; x.up && x.selfVoter {
+				aware++
+			}
+		}
+		if aware*2 <= voters && s.poison == "" {
+			s.poison = "promoted-learner-unaware"
+		}
+		// ground truth for known finding "learner-restart-before-own-add": the
+		// only replicas that are behind are learners of the newest configuration
+		// that restarted from a snapshot older than their own addition; they do
+		// not know they are learners (RestartNode forgets the role) and refuse
+		// every newer snapshot ("can't become learner when restores snapshot")
+		if s.poison == "" {
+			only := true
+			any := false
+			for _, r := range s.rs {
+				if member(r) && r.cursor < target {
+					any = true
+					// joined as learner, restarted, and its own applied configuration
+					// does not contain it at all
+					if !(r.learner && !r.selfLearn && !r.selfVoter && r.incarn > 1) {
+						only = false
+					}
+				}
+			}
+			if any && only {
+				s.poison = "learner-restart-before-own-add"
+			}
 		}
 		st := ""
 		for _, r := range s.rs {
